@@ -22,11 +22,11 @@ pub const CHECKS: &[CheckDef] = &[
     CheckDef { id: "C04", level: "exploration", rules: &["C04.", "C03.ackid", "C06.quiescent", "CRASH."], quick_runs: 8000, thorough_runs: 300_000, nontrivial_rule: "sequential lease run with >=1 redelivery after expiry (a probe on the late side saw the message again)" },
     CheckDef { id: "C05", level: "exploration", rules: &["C05.", "C03.double", "CRASH."], quick_runs: 8000, thorough_runs: 300_000, nontrivial_rule: "sequential lease run with >=1 ModifyAckDeadline naming an outstanding delivery" },
     CheckDef { id: "C06", level: "exploration", rules: &["C06.", "CRASH."], quick_runs: 6000, thorough_runs: 200_000, nontrivial_rule: ">=1 parked blocking Pull or stream received messages that became available while it was parked" },
-    CheckDef { id: "C07", level: "exploration", rules: &["C07.", "CRASH."], quick_runs: 3000, thorough_runs: 100_000, nontrivial_rule: "a mailbox was full when a request or a fan-out post was sent (probe mailbox_full_at_send / post_blocked_on_full_mailbox)" },
+    CheckDef { id: "C07", level: "exploration", rules: &["C07.", "CRASH."], quick_runs: 5000, thorough_runs: 100_000, nontrivial_rule: "a mailbox was full when a request or a fan-out post was sent (probe mailbox_full_at_send / post_blocked_on_full_mailbox)" },
     CheckDef { id: "C08", level: "exploration", rules: &["C08.", "CRASH."], quick_runs: 6000, thorough_runs: 200_000, nontrivial_rule: ">=1 pair of overlapping Publish calls on one topic and >=2 subscriptions on a topic" },
     CheckDef { id: "C09", level: "exploration", rules: &["C09.", "CRASH."], quick_runs: 5000, thorough_runs: 150_000, nontrivial_rule: ">=1 redelivery and >=1 delivery by each of >=2 delivery paths" },
     CheckDef { id: "C10", level: "exploration", rules: &["C10.", "CRASH."], quick_runs: 6000, thorough_runs: 200_000, nontrivial_rule: ">=2 operations on one name overlapped and at least one of them was a create or a delete" },
-    CheckDef { id: "C11", level: "exploration", rules: &["C11.", "C01.conservation", "C01.lost", "C01.redelivery", "CRASH."], quick_runs: 6000, thorough_runs: 200_000, nontrivial_rule: ">=1 DeleteSubscription or DeleteTopic returned OK and a later audit listed a topic's subscriptions" },
+    CheckDef { id: "C11", level: "exploration", rules: &["C11.", "C01.conservation", "C01.lost", "C01.redelivery", "C14.retry", "CRASH."], quick_runs: 6000, thorough_runs: 200_000, nontrivial_rule: ">=1 DeleteSubscription or DeleteTopic returned OK and a later audit listed a topic's subscriptions" },
     CheckDef { id: "C12", level: "exploration", rules: &["C12.", "CRASH."], quick_runs: 5000, thorough_runs: 150_000, nontrivial_rule: "a DeleteSubscription returned OK while >=1 stream or blocking Pull was waiting on the subscription" },
     CheckDef { id: "C13", level: "exploration", rules: &["C13.", "CRASH."], quick_runs: 4000, thorough_runs: 100_000, nontrivial_rule: ">=1 walk of >=2 pages over a listing that had deletions before it, or a forged decodable token" },
     CheckDef { id: "C14", level: "exploration", rules: &["C14.", "C09.fields", "CRASH."], quick_runs: 5000, thorough_runs: 150_000, nontrivial_rule: ">=1 POST was answered with a non-accepting behaviour and the same message was POSTed again" },
@@ -116,21 +116,41 @@ pub fn generate(id: &str, run_seed: u64, _thorough: bool) -> Plan {
                 f_delete(run_seed, false)
             } else if pick < 80 {
                 f_general(run_seed, &GeneralOpts { stalls: false, ..full })
-            } else if pick < 90 {
+            } else if pick < 86 {
                 // every lock path incl. the push loop and push subscriptions (lock-order rule)
                 f_general(run_seed, &GeneralOpts { stalls: false, push: true, ..full })
-            } else {
+            } else if pick < 92 {
                 f_push(run_seed, false)
+            } else if pick < 96 {
+                // creates racing deletes of the same names (wait-for cycles that need no full mailbox)
+                f_names(run_seed, 3, false)
+            } else {
+                f_dupcreate(run_seed)
             }
         }
         "C08" => {
             if pick < 6 {
                 f_bigbatch(run_seed)
+            } else if pick < 12 {
+                // IDs issued around a DeleteTopic
+                f_topicdelete(run_seed)
+            } else if pick < 20 {
+                // push delivery order, with failing endpoints and publishes during a round
+                f_push(run_seed, false)
+            } else if pick < 30 {
+                f_general(run_seed, &GeneralOpts { consumer_faults: false, publisher_faults: false, deletes: false, push: true, single_drain_consumer_share: 0, ..full })
             } else {
-                f_general(run_seed, &GeneralOpts { consumer_faults: false, publisher_faults: false, deletes: false, single_drain_consumer_share: 30, ..full })
+                // (a share with deletions: IDs issued around a DeleteTopic)
+                f_general(run_seed, &GeneralOpts { consumer_faults: false, publisher_faults: false, deletes: pick < 50, single_drain_consumer_share: 30, ..full })
             }
         }
-        "C09" => f_general(run_seed, &GeneralOpts { rich_payloads: true, publisher_faults: false, push: pick < 50, big_batches: false, ..full }),
+        "C09" => {
+            if pick >= 94 {
+                f_topicdelete(run_seed)
+            } else {
+                f_general(run_seed, &GeneralOpts { rich_payloads: true, publisher_faults: false, push: pick < 50, big_batches: false, ..full })
+            }
+        }
         "C10" => {
             if pick < 90 {
                 f_names(run_seed, 1 + pick % 4, pick < 50)
@@ -139,13 +159,22 @@ pub fn generate(id: &str, run_seed: u64, _thorough: bool) -> Plan {
             }
         }
         "C11" => {
-            if pick < 60 {
+            if pick < 10 {
+                // push subscriptions orphaned by DeleteTopic keep pushing what they hold
+                f_push(run_seed, false)
+            } else if pick < 60 {
                 f_names(run_seed, pick % 3, pick % 2 == 0)
             } else {
                 f_general(run_seed, &GeneralOpts { stalls: false, ..full }).with_tag("audit_lists")
             }
         }
-        "C12" => f_delete(run_seed, false),
+        "C12" => {
+            if pick < 88 {
+                f_delete(run_seed, false)
+            } else {
+                f_names(run_seed, 1 + pick % 3, false)
+            }
+        }
         "C13" => f_listing(run_seed, mix2(run_seed, 0xB16) % 1000 < if _thorough { 20 } else { 12 }),
         "C14" => f_push(run_seed, pick < 35),
         "C16" => {
